@@ -435,13 +435,72 @@ def callbacks_before_update_sent():
     return 'bool', 'true'
 
 
+def input_callbacks_per_instance():
+    """HasControlledBy: the class attribute inputCallbacks is immutable (an empty tuple / frozenset / None, never a dict or
+    list shared by all output modules) and register_input creates the dict on the INSTANCE before the first entry is stored:
+    first statement `if not self.inputCallbacks: self.inputCallbacks = {}`, then `self.inputCallbacks[name] = deactivate_control`"""
+    tree = parse(MIX)
+    cls = find_class(tree, 'HasControlledBy')
+    assigns = [n for n in cls.body if isinstance(n, (ast.Assign, ast.AnnAssign))
+               and any(isinstance(t, ast.Name) and t.id == 'inputCallbacks'
+                       for t in (n.targets if isinstance(n, ast.Assign) else [n.target]))]
+    if len(assigns) != 1 or assigns[0].value is None:
+        raise Shape('HasControlledBy: expected exactly one class level assignment of inputCallbacks')
+    if _norm(assigns[0].value) not in ('()', 'None', 'frozenset()', 'tuple()'):
+        raise Shape('HasControlledBy.inputCallbacks: the class attribute is a mutable object shared by all output modules')
+    reg = find_func(cls, 'register_input')
+    body = [n for n in reg.body if not (isinstance(n, ast.Expr) and isinstance(n.value, ast.Constant))]
+    if len(body) < 2:
+        raise Shape('register_input: too short')
+    first, second = body[0], body[1]
+    ok = (isinstance(first, ast.If) and _norm(first.test) in ('notself.inputCallbacks', 'self.inputCallbacksisNone')
+          and not first.orelse and len(first.body) == 1 and _norm(first.body[0]) in ('self.inputCallbacks={}', 'self.inputCallbacks=dict()')
+          and _norm(second) == 'self.inputCallbacks[name]=deactivate_control')
+    if not ok:
+        raise Shape('register_input: the callback dict is not created per instance before the entry is stored')
+    # no other statement anywhere in the mixins re-binds or copies the dict of another module
+    others = [n for n in ast.walk(tree) if isinstance(n, (ast.Assign, ast.AugAssign))
+              and any('inputCallbacks' in _norm(t) for t in (n.targets if isinstance(n, ast.Assign) else [n.target]))
+              and n is not assigns[0] and n is not first.body[0] and n is not second]
+    if others:
+        raise Shape('mixins: unexpected assignment involving inputCallbacks')
+    return 'bool', 'true'
+
+
+def read_wrapper_announces_inside_access_lock():
+    """generated read wrapper new_rfunc: ONE statement `with self.accessLock:`; every announceUpdate call of the wrapper
+    (value and error) and the call of the user method are inside it; nothing follows the with statement"""
+    init = find_func(find_class(parse(MOD), 'HasAccessibles'), '__init_subclass__')
+    outs = {}
+    for fname, user in (('new_rfunc', 'rfunc(self)'), ('new_wfunc', 'wfunc(self,')):
+        f = _inner_func(init, fname)
+        body = [n for n in f.body if not (isinstance(n, ast.Expr) and isinstance(n.value, ast.Constant))]
+        withs = [n for n in body if isinstance(n, ast.With)]
+        if len(withs) != 1 or len(withs[0].items) != 1 or _norm(withs[0].items[0].context_expr) != 'self.accessLock':
+            raise Shape(f'{fname}: expected exactly one `with self.accessLock:`')
+        w = withs[0]
+        inside = {id(n) for n in ast.walk(w)}
+        calls = [n for n in ast.walk(f) if isinstance(n, ast.Call) and _norm(n.func) == 'self.announceUpdate']
+        if not calls or any(id(c) not in inside for c in calls):
+            raise Shape(f'{fname}: an announceUpdate call is outside `with self.accessLock:`')
+        if fname == 'new_rfunc':
+            if body[-1] is not w:
+                raise Shape('new_rfunc: statements after `with self.accessLock:`')
+            vals = [c for c in calls if not any(k.arg == 'err' for k in c.keywords)]
+            if len(vals) != 1 or _norm(vals[0]) != 'self.announceUpdate(pname,value,validate=False)':
+                raise Shape('new_rfunc: value announcement not as modelled')
+        if user not in _norm(w):
+            raise Shape(f'{fname}: user method not called inside the lock')
+    return 'bool', 'true'
+
+
 FACTS = [struct_callbacks_shape, struct_generated_methods_shape, struct_member_write_returns_readback,
          floatenum_value_derived_from_index, floatenum_write_selects_closest, floatenum_write_returns_current_value,
          floatenum_init_shape,
          check_limits_shape, check_function_installed_for_limits, limit_check_installed_per_class_dict, limit_postfixes, limit_datatype_from_base,
          limitstype_refuses_inverted,
          activate_control_shape, self_controlled_shape, update_target_lookup_by_member,
-         callbacks_before_update_sent]
+         callbacks_before_update_sent, input_callbacks_per_instance, read_wrapper_announces_inside_access_lock]
 
 FINGERPRINTS = {
     'StructParam.__set_name__': lambda: find_func(_struct(), '__set_name__'),
